@@ -201,7 +201,8 @@ impl InnerInMemory {
         record_type: RecordType,
         lookup_options: LookupOptions,
     ) -> Option<Arc<RecordSet>> {
-        // Check for delegation
+        // Check for delegation: the zone cut closest to the apex, NS RRsets below it are occluded
+        let mut delegation = None;
         let mut search_name = name.clone();
         while !search_name.is_root() {
             let ns_key = RrKey::new(search_name.clone(), RecordType::NS);
@@ -215,8 +216,8 @@ impl InnerInMemory {
                 // Request is for a DS record and we're at the delegation point.
                 // Don't return a referral, DS record resides in the parent zone.
                 (Some(_), false) if ds_exact => {}
-                // Return a delegation point: NS exists without SOA.
-                (Some(ns), false) => return Some(ns.clone()),
+                // A delegation point: NS exists without SOA.
+                (Some(ns), false) => delegation = Some(ns),
                 // Zone apex: NS with SOA - we're at the top of the zone
                 (Some(_), true) => break,
                 // No NS, keep walking up.
@@ -224,6 +225,10 @@ impl InnerInMemory {
             }
 
             search_name = search_name.base_name();
+        }
+
+        if let Some(ns) = delegation {
+            return Some(ns.clone());
         }
 
         // this range covers all the records for any of the RecordTypes at a given label.
